@@ -15,7 +15,7 @@ VARIABLES l, w, viol
 vars == <<l, w, viol>>
 
 Empty == [issued |-> {}, status |-> <<>>, merged |-> <<>>, comp |-> <<>>, zst |-> <<>>,
-          lazyq |-> <<>>, peak |-> 0, led |-> <<>>, zdes |-> 0, zret |-> 0, inm |-> FALSE, tid |-> -1]
+          lazyq |-> <<>>, peak |-> 0, led |-> <<>>, zdes |-> 0, zret |-> 0, inm |-> 0, tid |-> -1]
 
 TInit == l = 1 /\ w = Empty /\ viol = {}
 
